@@ -91,16 +91,40 @@ PROPS = {
                              'pool_invb_no_conflict', 'no_conflictb_sound'],
                  partial='theorem over all histories assumes the true gas/size totals fit u64 (saturating counters)'),
     'C17': _spec('C17', 17, ['can_store_bounds_partial', 'remove_subtree_exact', 'inv_edges_sound_acyclic',
-                             'cascadeb_sound', 'parents_first_sound'],
-                 partial='PARTIAL PROOF: admission-level bounds and subtree-removal exactness are proved; parents-before-children, '
-                         'cascade, chain bound and diamond-freeness of every reachable graph are decided by the checker step17 '
-                         '(pool_invb + cascadeb + parents_first) on every implementation/model trace, not by an inductive proof'),
+                             'cascadeb_sound', 'parents_first_sound', 'graph_wellformed_all_histories',
+                             'hist_inv_step', 'hist_inv_initial', 'hist_inv_meaning', 'cascade_all_histories_partial',
+                             'cascade_step_partial', 'remove_subtree_cascades_partial', 'chain_bound_all_histories',
+                             'diamond_free_all_histories', 'cascade_all_histories', 'hist_inv2_step', 'cascade_step',
+                             'extraction_parents_first_all_histories', 'hist_inv3_step'],
+                 partial='MOSTLY PROVED OVER ALL HISTORIES (induction over every operation list from the empty pool, no hypothesis): '
+                         'inv_edges holds in every reachable state - no dangling edge, every parent of a stored transaction is stored, '
+                         'each dependency created strictly before its dependent, graph acyclic, creator caches name stored transactions '
+                         '(graph_wellformed_all_histories); no diamond below any node and the subtree removal never meets a vanished node '
+                         '(diamond_free_all_histories); removal cascades to all dependents = the checker cascadeb holds on every step of '
+                         'every model history (cascade_all_histories); every extraction from a reachable state hands out parents before '
+                         'children = the checker parents_first (extraction_parents_first_all_histories); the counter '
+                         'number_dependents_in_chain of every stored transaction is <= max(1, max_txs_chain_count) '
+                         '(chain_bound_all_histories); the invariants are kept by every operation from any state satisfying them '
+                         '(hist_inv_step, hist_inv2_step, hist_inv3_step). STILL ONLY decided by the checker pool_invb (inside step17) on every '
+                         'implementation/model trace: the walk-based shape test inv_shape (real ancestor-count bound, diamond test above '
+                         'a node), exactness of the cumulative counters (false after an LRU overflow: K-C17), completeness of the creator '
+                         'caches and of the collision indexes (inv_creators, inv_cm), LRU length, and that the panic flag of the '
+                         'remaining debug assertions stays false (inv_exec is proved, see C18)'),
     'C18': _spec('C18', 18, ['extraction_respects', 'gather_best_txs_respects', 'ratio_order_partial',
                              'sorted_keys_ratio', 'key_order_transitive', 'exec_insert_keeps_sorted_partial',
-                             'exec_remove_keeps_sorted_partial'],
-                 partial='PARTIAL PROOF: limits, price, excluded contracts, conflict-freedom and removal proved for all states; ratio '
-                         'order proved per pass assuming the executable list is sorted; sortedness and parents-first are checked '
-                         'by pool_invb / extraction_okb on every trace'),
+                             'exec_remove_keeps_sorted_partial', 'exec_sorted_all_histories',
+                             'ratio_order_all_histories', 'exec_exact_all_histories',
+                             'extraction_parents_first_all_histories', 'exec_complete_all_histories',
+                             'inv_exec_all_histories'],
+                 partial='MOSTLY PROVED: limits, price, excluded contracts, conflict-freedom and removal proved for all states; '
+                         'PROVED for every reachable state by induction over all operation lists (no hypothesis): the checker inv_exec '
+                         '(inv_exec_all_histories) - the executable list is sorted with positive max_gas (exec_sorted_all_histories), every '
+                         'key is exactly the key of a stored transaction without pool dependencies (exec_exact_all_histories), every stored '
+                         'transaction without pool dependencies is in it (exec_complete_all_histories); hence the ratio order of the keys '
+                         'selected by a pass holds without hypothesis (ratio_order_all_histories); every extraction hands out parents before '
+                         'children (extraction_parents_first_all_histories). Still only checked by extraction_okb on every trace: the '
+                         'relative order of transactions selected in DIFFERENT passes of one extraction (a promoted child may have a '
+                         'better ratio than an earlier pick)'),
     'C19': _spec('C19', 19, ['insert_rejects', 'insert_rejection_is_noop', 'collision_rule',
                              'handed_out_inputs_rejected_refuted', 'handed_out_inputs_recorded_partial',
                              'lru_put_no_eviction_partial'],
